@@ -585,8 +585,11 @@ def check_diagram(pid, tier):
         # second phase: the sub-problems the diagrams themselves hand out (cut-set nodes of the relaxed compilations) become roots; for the pooled
         # flavour with long arcs these are sub-problems whose path is SHORTER than their depth (skipped variables carry no decision)
         seen = set(); blocks2 = []; meta2 = []
-        probe = Stream(chk, tier, types=(1,), widths=(1, 2), flavours=(2, 0), ninst=(40 if tier == "quick" else 300), longarcs=True, only_longarcs=True)
-        for (I, rows) in probe.run():
+        probe = Stream(chk, tier, types=(1,), widths=(1, 2), flavours=(2, 0, 1), ninst=(40 if tier == "quick" else 300), longarcs=True, only_longarcs=True)
+        depth_fails = []
+        # (long-arc instances are only compiled by the pooled flavour: the clean flavours get a probe of their own, on the plain families)
+        probe_clean = Stream(chk, tier, types=(1,), widths=(1, 2), flavours=(0, 1), ninst=(40 if tier == "quick" else 300))
+        for (I, rows) in probe.run() + probe_clean.run():
             lines = [I.line()]; metas = [None]
             for meta, li, lm, case in rows:
                 for c in parse_cutset(parse_fields(li).get("CS")):
@@ -595,6 +598,13 @@ def check_diagram(pid, tier):
                     if key in seen or len(lines) > 60: continue
                     seen.add(key)
                     root = (c["depth"], c["state"][0], c["value"], c["path"])
+                    # the depth a sub-problem is handed out with is the depth next_variable receives when it is compiled: it must be the number of
+                    # layers from the problem root = the number of decisions on its path (clean flavours: every variable is decided; pooled: at least)
+                    ndec = len(c["path"])
+                    if (meta["flv"] != 2 and c["depth"] != ndec) or (meta["flv"] == 2 and c["depth"] < ndec) or c["depth"] > I.nvars:
+                        depth_fails.append(("C12", "depth", "cut-set sub-problem handed out with depth %d although its path decides %d variables: compiling it calls "
+                                            "next_variable with a depth that is not the number of layers from the problem root" % (c["depth"], ndec),
+                                            {"instance": I.line(), "case": case, "cutset_node": c, "impl": li[:1500]}))
                     for ct in types:
                         for w in (1, 2):
                             lines.append(mline(meta["flv"], ct, w, IMIN, 0, 0, 0, root))
@@ -612,6 +622,7 @@ def check_diagram(pid, tier):
     total = sum(len(rows) for _, rows in results)
     stats = {}; nontriv = set(); samples = []
     fails = []
+    if pid == "C12" and not viz: fails += depth_fails
     if pid in ("C06", "C07", "C08"):
         fl, stats, nontriv = eval_diagram_properties(results, {pid})
         fails = [f for f in fl if f[0] in (pid, "ALL")]
